@@ -89,6 +89,10 @@ fn try_from_family<const N: usize>(st: &mut Stats) {
     }
 }
 
+fn aead_mac(w: &[u8]) -> [u8; 16] {
+    w[..16].try_into().unwrap()
+}
+
 pub fn run() -> i32 {
     sodium::init();
     quiet_panics();
@@ -114,6 +118,13 @@ pub fn run() -> i32 {
             let (t, d) = b.clone().into_parts();
             let fp = DryocSecretBox::from_parts(t, d);
             v.push(("secretbox/parts".into(), fp == b));
+            // the slice-copying constructors
+            let wd: DryocSecretBox<SB<16>, Vec<u8>> = DryocSecretBox::with_data_and_mac(SB::<16>::from(&aead_mac(&wire)), &wire[16..]);
+            v.push(("secretbox/with_data_and_mac".into(), wd == b && wd.to_vec() == wire));
+            let w0: DryocSecretBox<SB<16>, Vec<u8>> = DryocSecretBox::with_data(&wire[16..]);
+            let mut zero_tagged = vec![0u8; 16];
+            zero_tagged.extend_from_slice(&wire[16..]);
+            v.push(("secretbox/with_data".into(), w0.to_vec() == zero_tagged && w0.decrypt_to_vec(&ks.n, &ks.k).is_err()));
             for (c, rt) in [("json", json_rt(&b)), ("bincode", bin_rt(&b))] {
                 v.push((format!("secretbox/{}", c), rt.as_ref().map(|x| x == &b && x.decrypt_to_vec(&ks.n, &ks.k).ok().as_deref() == Some(&m[..])).unwrap_or(false)));
                 // the decoded object must still emit libsodium's layout through every emitter
@@ -276,6 +287,35 @@ pub fn run() -> i32 {
         }
     });
     ctx.absorb("key-objects", st);
+    // the zero-initialised constructors every decoder and generator starts from: a
+    // fixed-length container has exactly N zero bytes, a resizable one starts empty
+    {
+        use dryoc::types::{NewByteArray, NewBytes};
+        let mut st = Stats::new();
+        macro_rules! fixed {
+            ($($n:literal),*) => {$(
+                let cells: Vec<(&str, Vec<u8>)> = vec![
+                    ("StackByteArray", <SB<$n> as NewByteArray<$n>>::new_byte_array().as_slice().to_vec()),
+                    ("[u8; N]", <[u8; $n] as NewByteArray<$n>>::new_byte_array().to_vec()),
+                    ("Vec<u8>", <Vec<u8> as NewByteArray<$n>>::new_byte_array()),
+                ];
+                for (name, got) in cells {
+                    let ok = got == vec![0u8; $n];
+                    st.eval(&("new_byte_array", name, $n), true, if ok { "constructor-length-ok" } else { "constructor-length-bad" });
+                    if !ok {
+                        fail(&mut st, &format!("{}::new_byte_array<{}>", name, $n), "length", format!("{}::new_byte_array::<{}>() returned {} bytes ({})", name, $n, got.len(), short(&got)));
+                    }
+                }
+            )*};
+        }
+        fixed!(1, 8, 16, 24, 32, 33, 64, 65);
+        let e = <Vec<u8> as NewBytes>::new_bytes();
+        st.eval(&("new_bytes", "Vec<u8>"), true, if e.is_empty() { "constructor-length-ok" } else { "constructor-length-bad" });
+        if !e.is_empty() {
+            fail(&mut st, "Vec<u8>::new_bytes", "length", format!("Vec::new_bytes() returned {} bytes", e.len()));
+        }
+        ctx.absorb("constructors", st);
+    }
 
     // wrong-length family
     let mut st = Stats::new();
